@@ -298,6 +298,103 @@ def dict_event_factory_case(case):
     return dict(reproduced=bool(violated), violated=violated)
 
 
+def set_case(case):
+    from traits.trait_set_object import TraitSet
+    validator, exc = mk_validator(case.get("validator", {}))
+    members = set(case["members"])
+    events = []
+    ts = TraitSet(members)
+    ts.item_validator = validator
+    ts.notifiers.append(lambda s, r, a: events.append(((set(r), set(a)), set(s))))
+    op, args = case["op"], case.get("args", {})
+    operands = [set(o) for o in args.get("operands", [])]
+    violated = []
+    ident = all(validator(x) == x for o in operands for x in o if case.get("validator", {}).get("ok", {}).get(str(x), True))
+
+    def validated(o):
+        return {validator(x) for x in o}
+    ref, ref_exc, ref_res = set(members), None, None
+    try:
+        if op == "add":
+            ref.add(validator(args["value"]))
+        elif op == "discard":
+            ref.discard(args["value"])
+        elif op == "remove":
+            ref.remove(args["value"])
+        elif op == "pop":
+            ref_res = "pop"
+            ref.pop()
+        elif op == "clear":
+            ref.clear()
+        elif op in ("update", "__ior__"):
+            ref.update(*[validated(o) for o in operands])
+        elif op in ("difference_update", "__isub__"):
+            ref.difference_update(*operands)
+        elif op in ("intersection_update", "__iand__"):
+            ref.intersection_update(*operands)
+        elif op in ("symmetric_difference_update", "__ixor__"):
+            (o,) = operands
+            validated(o - members)          # items to be added must validate
+            ref = (members ^ o) if ident else None     # result determined only for non-coercing validators
+    except Exception as e:
+        ref_exc = type(e)
+    got_exc, got_res = None, None
+    try:
+        if op in ("add", "discard", "remove"):
+            getattr(ts, op)(args["value"])
+        elif op == "pop":
+            got_res = ts.pop()
+        elif op == "clear":
+            ts.clear()
+        elif op in ("update", "difference_update", "intersection_update"):
+            getattr(ts, op)(*operands)
+        elif op == "symmetric_difference_update":
+            ts.symmetric_difference_update(operands[0])
+        elif op == "__ior__":
+            ts |= operands[0]
+        elif op == "__iand__":
+            ts &= operands[0]
+        elif op == "__isub__":
+            ts -= operands[0]
+        elif op == "__ixor__":
+            ts ^= operands[0]
+    except Exception as e:
+        got_exc = type(e)
+    after = set(ts)
+    if got_exc is None:
+        if ref_exc is not None:
+            violated.append("accepted an operation that set/validator rejects (%s)" % ref_exc.__name__)
+        elif op == "pop":
+            if got_res not in members or after != members - {got_res}:
+                violated.append("pop result/contents inconsistent")
+        elif ref is not None and after != ref:
+            violated.append("contents differ from set: %r vs %r" % (sorted(after), sorted(ref)))
+        if len(events) > 1:
+            violated.append("more than one event")
+        if not events and after != members:
+            violated.append("contents changed without an event")
+        for ((r, a), at) in events:
+            if after == members:
+                violated.append("event although nothing changed")
+            if at != after:
+                violated.append("event emitted before the mutation was complete")
+            if not r <= members:
+                violated.append("removed is not a subset of the previous contents")
+            if a & members:
+                violated.append("added is not disjoint from the previous contents")
+            if (members - r) | a != after:
+                violated.append("(previous - removed) | added is not the new contents")
+    else:
+        if got_exc is not ref_exc:
+            violated.append("raised %s where set/validator give %s" % (got_exc.__name__, ref_exc.__name__ if ref_exc else "no exception"))
+        if after != members:
+            violated.append("failing operation changed the contents: %r -> %r" % (sorted(members), sorted(after)))
+        if events:
+            violated.append("failing operation notified")
+    return dict(reproduced=bool(violated), violated=violated,
+                observed=dict(after=sorted(after), events=[repr(e[0]) for e in events], exc=got_exc.__name__ if got_exc else None))
+
+
 def set_copy_case(case):
     """C07: copy, deepcopy and pickle of a TraitSet yield an equal set that still validates."""
     import pickle
@@ -334,7 +431,7 @@ def main():
     case = json.loads(sys.stdin.read())
     fam = case.get("family", "list")
     out = {"list": list_case, "dict": dict_case, "dict_event_factory": dict_event_factory_case,
-           "set_copy": set_copy_case}[fam](case)
+           "set_copy": set_copy_case, "set": set_case}[fam](case)
     print(json.dumps(out, default=repr))
 
 
